@@ -204,6 +204,9 @@ func (b *unboundBuilder) Parse(s string) (*Literal, error) {
 	if idx < 0 {
 		return nil, fmt.Errorf("literal.Parse: text encoded literals must have a type; missing in %s", raw)
 	}
+	if idx == 0 {
+		return nil, fmt.Errorf("literal.Parse: text encoded literals must have an opening and a closing \"; only one found in %s", raw)
+	}
 	v := raw[1:idx]
 	t := raw[idx+len("\"^^type:"):]
 	switch t {
